@@ -90,6 +90,11 @@ for dtype in (torch.float32, torch.float64):
         chk("localvol", tuple(ps.generate_local_volatility_process(n, t, lambda tt, s: 0.2 + 0.1 * (s - 1).abs(), init_state=(2.5,), dt=0.02, **kw))[:1], n, t, (2.5,), dtype=dtype)
         if t >= 2:
             chk("rough_bergomi", tuple(ps.generate_rough_bergomi(n, t, init_state=(2.5, 0.09), dt=0.02, **kw)), n, t, (2.5, 0.09), positive=True, dtype=dtype)
+for z in (0.0, 0.25):                 # initial state given as a bare scalar / one-element tuple, including the falsy value 0
+    for st in (z, (z,)):
+        chk("brownian init_state=%r" % (st,), ps.generate_brownian(3, 4, init_state=st, dt=0.02, dtype=torch.float64), 3, 4, (z,))
+        chk("vasicek init_state=%r" % (st,), ps.generate_vasicek(3, 4, init_state=st, dt=0.02, dtype=torch.float64), 3, 4, (z,))
+        chk("cir init_state=%r" % (st,), ps.generate_cir(3, 4, init_state=st, dt=0.02, dtype=torch.float64), 3, 4, (z,), nonneg=True)
 h = ps.generate_heston(5, 6, dtype=torch.float64)
 if not torch.allclose(h.volatility, h.variance.clamp(min=0).sqrt()): bad.append("heston volatility != sqrt(variance)")
 result = {"got": [str(b) for b in bad][:12], "ref": []}
@@ -99,7 +104,7 @@ result = {"got": [str(b) for b in bad][:12], "ref": []}
 def _replay_gen():
     r = real_exec(GEN_REPLAY, {}, timeout=600)
     ok = r.get('ok') and r['result']['got'] == []
-    return {'real': r, 'confirmed': not ok, 'note': 'replay: real generators for (n_paths, n_steps) in {(1,1),(3,2),(4,7)}, non-default initial states, float32/float64: shape, first column, finiteness, sign, dtype'}
+    return {'real': r, 'confirmed': not ok, 'note': 'replay: real generators for (n_paths, n_steps) in {(1,1),(3,2),(4,7)}, non-default initial states (tuples and bare scalars, incl. 0), float32/float64: shape, first column, finiteness, sign, dtype'}
 
 
 LAW = '[law] '
@@ -128,7 +133,12 @@ def _verdict(rows, t0, sample, aspect=None):
     sample['vcs'] = [{'vc': r[0], 'status': r[1]} for r in rows][:14]
     sample['n_vcs'] = len(rows)
     if bad:
-        rp = _replay_crn(sample['generator']) if (sample.get('generator') and any('caller-supplied' in r[0] for r in bad)) else _replay_gen()
+        if sample.get('generator') and any('caller-supplied' in r[0] for r in bad):
+            rp = _replay_crn(sample['generator'])
+        elif aspect == 'law' or all(LAW in r[0] for r in bad):
+            rp = _replay_law()
+        else:
+            rp = _replay_gen()
         return Verdict('refuted', 'z3', time.time() - t0, '; '.join('%s %s' % (r[0], r[2]) for r in bad)[:600], witness={'failed': [r[0] for r in bad]}, sample=sample, replay=rp)
     if unk:
         return Verdict('unknown', 'z3', time.time() - t0, '; '.join('%s %s' % (r[0], r[2]) for r in unk)[:600], sample=sample)
@@ -769,7 +779,7 @@ s = ps.generate_geometric_brownian(n, 11, mu=0.1, sigma=0.3, dt=0.01, init_state
 if z(s[:, -1].mean(), 2.0 * math.exp(0.1 * 0.1), float(s[:, -1].std()) / n ** 0.5) > 5: bad.append(("gbm mean", float(s[:, -1].mean())))
 if abs(float(s[:, -1].log().var()) / (0.09 * 0.1) - 1) > 0.02: bad.append(("gbm log-variance", float(s[:, -1].log().var())))
 # CIR / Heston variance: both QE branches, start away from theta, non-default dt
-for (sig, th, v0, dt) in ((0.2, 0.04, 0.09, 0.02), (2.0, 0.01, 0.002, 0.02)):
+for (sig, th, v0, dt) in ((0.2, 0.04, 0.09, 0.02), (2.0, 0.01, 0.002, 0.02), (1.18, 0.04, 0.01, 0.004), (2.0, 0.04, 0.01, 0.004)):   # dispersion ratio psi ~ 0.002, 20, 0.54, 1.55 at the first step
     kap = 1.5
     v = ps.generate_cir(n, 6, init_state=(v0,), kappa=kap, theta=th, sigma=sig, dt=dt, dtype=torch.float64)
     t = 5 * dt; e = math.exp(-kap * t)
@@ -777,6 +787,8 @@ for (sig, th, v0, dt) in ((0.2, 0.04, 0.09, 0.02), (2.0, 0.01, 0.002, 0.02)):
     if z(v[:, -1].mean(), mean, float(v[:, -1].std()) / n ** 0.5) > 6: bad.append(("cir mean", sig, float(v[:, -1].mean()), mean))
     e1 = math.exp(-kap * dt); var1 = v0 * sig ** 2 / kap * (e1 - e1 * e1) + th * sig ** 2 / (2 * kap) * (1 - e1) ** 2
     if abs(float(v[:, 1].var()) / var1 - 1) > 0.03: bad.append(("cir one-step variance", sig, float(v[:, 1].var()), var1))
+    mean1 = th + (v0 - th) * e1
+    if z(v[:, 1].mean(), mean1, float(v[:, 1].std()) / n ** 0.5) > 6: bad.append(("cir one-step mean", sig, float(v[:, 1].mean()), mean1))
     h = ps.generate_heston(n, 6, init_state=(1.0, v0), kappa=kap, theta=th, sigma=sig, dt=dt, dtype=torch.float64)
     if z(h.variance[:, -1].mean(), mean, float(h.variance[:, -1].std()) / n ** 0.5) > 6: bad.append(("heston variance mean", sig, float(h.variance[:, -1].mean()), mean))
 # Vasicek from a start away from theta
